@@ -49,7 +49,7 @@ def make_engine(api):
     for c in api.REGISTRY:
         t = c.target_obj
         if c.at_calls:
-            eng.contracts[t] = c
+            eng.contracts.setdefault(t, []).append(c)
         fn = t
         if isinstance(t, type):
             fn = None
